@@ -22,8 +22,21 @@ def _sig(ops, io, mo, k):
 CFG = PropCfg(
     "C10", "HopModel.Props.C10",
     [SuiteCfg("C10", signature=_sig, nontrivial=lambda ops, outs: len(ops) > 10 and any(o.startswith("hs=1") for o in outs),
-              classify=lambda op, out: _verb(op) + " " + out.split(" ")[0], parts_thorough=16, timeout=3000)],
-    rule="a case is a junk campaign against one real transport.Server (discoverable or hidden; 1-3 certificates / "
+              classify=lambda op, out: _verb(op) + " " + out.split(" ")[0], parts_thorough=16, timeout=3000),
+     # the vector parser of every reader on chosen decrypted bytes, against the transcription the theorem is about
+     SuiteCfg("C10vec", stateless=True, parts_thorough=4, nontrivial=lambda ops, outs: True,
+              classify=lambda op, out: out.split(" ")[0]),
+     # dishonest counterparts (C01's harness): after each of them the same server must serve an honest client (a=1)
+     SuiteCfg("C01", binary="C01", stateless=True, parts_thorough=8, nontrivial=lambda ops, outs: True)],
+    rule="suite C01 (C01's harness): every dishonest-counterpart handshake (certificates of wrong type, expired, self-signed, "
+         "foreign root, another key; every server policy incl. authorized keys and callbacks; both modes) is followed by "
+         "a handshake of an honest listed client with the same server, which must succeed: a counterpart that is never "
+         "authenticated must not wedge the endpoint (a lock or state left behind on a rejection path). "
+         "suite C10vec: transport.DecryptCertificates / readVector on chosen decrypted bytes (two Cyclist objects in the "
+         "same state: one encrypts the bytes, the other is handed to the function): every total length <= 14 with every "
+         "pair of announced lengths up to total+2, and random buffers up to 4 KiB with announced lengths at the exact "
+         "split points +-1, +-2, 0 and 65535; answers (lengths | err | panic) compared with Model/Dgram.lean. "
+         "suite C10: a case is a junk campaign against one real transport.Server (discoverable or hidden; 1-3 certificates / "
          "virtual hosts selected with hopserver's own VirtualHosts.Match; literal or wildcard patterns) and real clients "
          "in the states idle / waiting for ServerHello / waiting for ServerAuth / established: truncations of every "
          "valid client message at every field boundary +-1 and random lengths, single-field mutations (zero, ones, "
